@@ -4,5 +4,5 @@ P=$1; K=$2; ID=$3; TESTS=${4:-}
 declare -A T=( [C01]="test" [C02]="test" [C03]="test/test_stream.py test/test_gearbox.py test/test_packet.py" [C04]="test/test_stream.py test/test_gearbox.py test/test_packet.py" [C05]="test/test_stream.py test/test_clock_domain_crossing.py"
  [C06]="test/test_wishbone.py test/test_integration.py" [C07]="test/test_wishbone.py" [C08]="test/test_axi_lite.py test/test_axi.py" [C09]="test/test_axi_lite.py test/test_axi.py test/test_ahb.py" [C10]="test/test_axi.py" [C11]="test/test_axi_lite.py test/test_wishbone.py test/test_axi.py"
  [C12]="test/test_csr.py" [C13]="test/test_integration.py" [C14]="test/test_integration.py test/test_csr.py" [C15]="test/test_csr.py test/test_timer.py" [C16]="test/test_packet.py test/test_packet2.py" [C17]="test/test_code_8b10b.py test/test_stream.py" [C18]="test/test_ecc.py" [C19]="test/test_spi.py test/test_timer.py test/test_i2c.py" [C20]="test/test_clock.py" )
-[ -z "$TESTS" ] && { TESTS=""; for t in ${T[$P]}; do [ -f /repo/$t ] && TESTS="$TESTS $t"; done; }
+[ -z "$TESTS" ] && { TESTS=""; for t in ${T[$P]}; do [ -e /repo/$t ] && TESTS="$TESTS $t"; done; }
 cd /verif && tools/seed_verify2.sh $P /tmp/mut_${P}${ROUND:-r5}/m$K $ID "$TESTS"
